@@ -28,12 +28,15 @@ class C05(Check):
         ws = G.gen_workspace(rng, roots=(1, 2), defs=(2, 7), p_ref=0.5, p_service=0.25, p_union=0.3, p_port=0.25, p_dep=0.15)
         scn: dict = {"ws": ws, "inj": [], "allow_unreg": rng.random() < 0.3}
         n = rng.choice([0, 1, 1, 1, 1, 2])
+        # raw injectors whose verdict does not depend on what else is in the definition (position "any", not about sealing):
+        # only these may be combined with a second injection
+        independent = sorted(k for k, v in MU.RAW.items() if v[1] == "any" and k not in ("second-sealed", "sealed-expr")) + sorted(MU.LAZY)
         for _ in range(n):
             if rng.random() < 0.6:
                 scn["inj"].append({"k": "abs", "m": rng.randrange(len(MU.ABSTRACT)), "seed": rng.randrange(1 << 30)})
             else:
-                scn["inj"].append({"k": "raw", "name": rng.choice(sorted(MU.RAW) + sorted(MU.LAZY) + sorted(MU.FINAL)),
-                                   "def": rng.randrange(64), "seed": rng.randrange(1 << 30)})
+                names = independent if n > 1 else sorted(MU.RAW) + sorted(MU.LAZY) + sorted(MU.FINAL)
+                scn["inj"].append({"k": "raw", "name": rng.choice(names), "def": rng.randrange(64), "seed": rng.randrange(1 << 30)})
         scn["read_seed"] = rng.randrange(1 << 30)
         return scn
 
@@ -64,6 +67,9 @@ class C05(Check):
         out = Outcome()
         W.validate_ws(scn["ws"])
         ws, labels, touched_raw = self.build(scn)
+        dependent = [i for i in scn["inj"] if i["k"] == "raw" and (i["name"] in MU.FINAL or (i["name"] in MU.RAW and (MU.RAW[i["name"]][1] != "any" or i["name"] in ("second-sealed", "sealed-expr"))))]
+        if dependent and len(scn["inj"]) > 1:
+            raise InvalidScenario("a position / sealing dependent raw injector cannot be combined with another injection")
         uni = Universe(ws)
         if uni.dups:
             raise InvalidScenario("mutation produced duplicate keys")
